@@ -152,6 +152,9 @@ func (c *Ctx) RunSym(job SymJob) *gosym.Report {
 		return nil
 	}
 	cfg := job.Eng.Cfg
+	if c.Thorough() {
+		cfg.CrossEvery = 37
+	}
 	if job.Tweak != nil {
 		job.Tweak(&cfg)
 	}
@@ -561,4 +564,44 @@ func (c *Ctx) validateSample(job SymJob, rep *gosym.Report) {
 	default:
 		c.Inconclusive("%s: engine explored a path as passing but the native run of the same inputs ended %s (%s): engine or stub suspect, replay=%s", job.Name, status, msg, path)
 	}
+}
+
+// CrossCheck re-decides the sampled path queries with z3 5.1.0 and cvc5 (thorough tier).
+func (c *Ctx) CrossCheck() {
+	if c.Rep == nil || len(c.Rep.Cross) == 0 {
+		return
+	}
+	dir := c.Scratch()
+	qs := c.Rep.Cross
+	if len(qs) > 120 {
+		qs = qs[:120]
+	}
+	checked, disagreements := 0, 0
+	for i, q := range qs {
+		f := filepath.Join(dir, fmt.Sprintf("q%d.smt2", i))
+		for _, solver := range [][]string{{"z3-new", "-T:30"}, {"cvc5", "--lang=smt2", "--tlimit=30000"}} {
+			text := q.SMT
+			if solver[0] == "cvc5" {
+				text = "(set-logic ALL)\n" + text
+			}
+			os.WriteFile(f, []byte(text), 0o644)
+			out, _ := runWithTimeout(exec.Command(solver[0], append(solver[1:], f)...), 40*time.Second)
+			ans := ""
+			for _, l := range strings.Split(out, "\n") {
+				l = strings.TrimSpace(l)
+				if l == "sat" || l == "unsat" {
+					ans = l
+				}
+			}
+			if ans == "" {
+				continue // timeout / unknown: not counted
+			}
+			checked++
+			if ans != q.Expected {
+				disagreements++
+				c.Inconclusive("cross-solver disagreement: z3 4.8.12 said %s, %s said %s (query %d)", q.Expected, solver[0], ans, i)
+			}
+		}
+	}
+	c.Extra["cross_solver"] = map[string]int{"queries_sampled": len(qs), "answers_compared": checked, "disagreements": disagreements}
 }
